@@ -394,6 +394,8 @@ func init() {
 		misc := HSpec{Pkg: txPkg, Func: "VerifHarness_Misc_Deliver", Tier: "quick", Configs: []map[string]int64{
 			mc("kind", 0, "coin", 0), mc("kind", 0, "coin", 1), mc("kind", 1, "coin", 2), mc("kind", 1, "coin", 1), mc("kind", 1, "coin", 2, "signerB", 1),
 			mc("kind", 2, "signerB", 1), mc("kind", 2, "signerB", 1, "preVoted", 1), mc("kind", 2), mc("kind", 3, "signerB", 1), mc("kind", 3, "signerB", 1, "preVoted", 1), mc("kind", 3),
+			// the earlier vote was committed and the node restarted before the second one
+			mc("kind", 2, "signerB", 1, "preVoted", 2), mc("kind", 3, "signerB", 1, "preVoted", 2),
 			mc("kind", 4), mc("kind", 4, "existingKey", 1), mc("kind", 5), mc("kind", 5, "signerB", 1), mc("kind", 6), mc("kind", 6, "dupOwners", 1), mc("kind", 7), mc("kind", 8), mc("kind", 8, "ownedByA", 1)},
 			Bounds: "one CheckTx+DeliverTx per kind; amounts, weights, threshold, commission symbolic"}
 		for _, id := range []string{"C05", "C20", "C22", "C17", "C27"} {
@@ -500,7 +502,9 @@ func init() {
 		oc := func(kv ...interface{}) map[string]int64 { return cfg(kv...) }
 		add("C14", c14a,
 			HSpec{Pkg: "coreV2/state", Func: "VerifHarness_C14_FillThenClose", Tier: "quick", Configs: []map[string]int64{
-				oc("orders", 1, "commit", 1, "close", 0), oc("orders", 1, "commit", 1, "close", 1), oc("orders", 2, "commit", 1, "close", 0)},
+				oc("orders", 1, "commit", 1, "close", 0), oc("orders", 1, "commit", 1, "close", 1), oc("orders", 2, "commit", 1, "close", 0),
+				// a non-best order cancelled in a block of its own before the trade
+				oc("orders", 3, "commit", 1, "close", 0, "cancelSecond", 1)},
 				Bounds: "1 or 2 resting orders, committed; taker amount symbolic; cancel / expire in the block of the fill"},
 			HSpec{Pkg: "coreV2/state", Func: "VerifHarness_C14_FillThenClose", Tier: "thorough", Configs: []map[string]int64{
 				oc("orders", 2, "commit", 1, "close", 1), oc("orders", 2, "commit", 0), oc("orders", 3, "commit", 1, "close", 0), oc("orders", 3, "commit", 1, "close", 1), oc("orders", 3, "commit", 0, "reverseInsert", 1)},
@@ -557,7 +561,7 @@ func init() {
 			"harness choices: right/wrong password, proof for the redeemer/for another address, fresh/used check, issuer = another account or the redeemer itself, transaction gas coin equal to / different from the check's; check value, due block, chain id, nonces, gas price, balances symbolic",
 		}, txAssumptions...)
 		rq := HSpec{Pkg: txPkg, Func: "VerifHarness_C21_Redeem", Tier: "quick", Configs: []map[string]int64{
-			redeem("coin", 0, "gasCoin", 0), redeem("coin", 1, "gasCoin", 0), redeem("coin", 0, "gasCoin", 0, "used", 1),
+			redeem("coin", 0, "gasCoin", 0), redeem("coin", 1, "gasCoin", 0), redeem("coin", 0, "gasCoin", 0, "used", 1), redeem("coin", 0, "gasCoin", 0, "used", 2),
 			redeem("coin", 0, "gasCoin", 0, "selfIssued", 1), redeem("coin", 0, "gasCoin", 0, "txGasCoinOther", 1), redeem("coin", 1, "gasCoin", 1),
 		}, Bounds: "one CheckTx+DeliverTx of RedeemCheck plus a second redemption attempt; concrete price table"}
 		rt := HSpec{Pkg: txPkg, Func: "VerifHarness_C21_Redeem", Tier: "thorough", Configs: []map[string]int64{
